@@ -22,7 +22,8 @@ package main
 //   obs=<sub>|<emits>|<deliveries>|<cut>|<flags>
 //     emits, deliveries: t0:t1:<notif>,…   notif = N<v> | B<v.v.v> | Eu<n> | Eto | Ecc | Eot | C
 //     cut: - | u:<u0>:<u1> | i:<k>:<u0>:<u1> | c:<c0>:<c1>
-//     flags: - | T   (T: a terminal that the cancellation must produce did not arrive within the guard)
+//     flags: - | T   (T: a terminal that the cancellation must produce did not arrive within the guard,
+//                     or 40 further deliveries were seen without it)
 
 import (
 	"context"
@@ -269,6 +270,9 @@ var timedWatchesCtx = map[string]bool{"Timer": true, "Interval": true, "Interval
 
 const timedGuard = 3 * time.Second
 
+// deliveries after which a cancelled stream is no longer waited for (see runTimed)
+const timedKeepsEmitting = 40
+
 // ---------- running one case ----------
 
 func runTimed(c *Case) string {
@@ -402,13 +406,29 @@ func runTimed(c *Case) string {
 		mustEnd = true
 	}
 	if mustEnd {
-		select {
-		case <-rec.terminal:
-		case <-time.After(timedGuard):
-			flags = "T"
+		// Keep observing until the terminal arrives; give up at the guard, or as soon as the stream has
+		// plainly not fallen silent (timedKeepsEmitting further deliveries since this point - far more
+		// than the acceptor's count clause for cancellation allows). A missing terminal alone is only
+		// a harness-timeout note; continued emission is in `obs=` and is judged by the acceptor.
+		seq0 := atomic.LoadInt64(&rec.seq)
+		deadline := time.After(timedGuard)
+		tick := time.NewTicker(time.Millisecond)
+	wait:
+		for {
+			select {
+			case <-rec.terminal:
+				break wait
+			case <-deadline:
+				flags = "T"
+				break wait
+			case <-tick.C:
+				if atomic.LoadInt64(&rec.seq)-seq0 >= timedKeepsEmitting {
+					flags = "T"
+					break wait
+				}
+			}
 		}
-	} else if cfg.cutKind == "-" && !hasSource {
-		// a periodic source without a cut never ends: generators always cut those
+		tick.Stop()
 	}
 	// 3. watch for late activity: everything that could still arrive arrives within the largest duration
 	settle := 2*cfg.d + 3000
